@@ -865,17 +865,20 @@ pub fn gen(r: &mut Rng, thorough: bool) -> Vec<(String, String)> {
     let na2 = if thorough { 480 } else { 96 };
     for it in 0..na2 {
         let lat = it % 2 == 0;
-        let poly = if it % 3 == 2 { gen_tie_poly2(r, lat) } else { gen_poly2(r, lat) };
+        // every 4th case: a thick shape that needs crossing cuts (star / oblique cross), at the extreme sizes of the domain
+        // (voxel size >> 1 and << 1 world unit), flood-filled, with enough hulls allowed for two levels of cuts at least
+        let thick = it % 4 == 3;
+        let poly = if thick { gen_thick_poly2(r, lat) } else if it % 3 == 2 { gen_tie_poly2(r, lat) } else { gen_poly2(r, lat) };
         let n = poly.len();
-        let res = *r.pick(if thorough { &[8u32, 16, 21, 32, 50, 64][..] } else { &[8u32, 16, 21, 32][..] });
-        let fm = [1, 1, 0, 3, 1, 2][(it / 2) % 6];
-        let maxh = *r.pick(&[1u32, 2, 3, 4, 5, 6, 8, 16]);
-        let conc = *r.pick(&[0.0005, 0.005, 0.05, 0.2]);
+        let res = if thick { *r.pick(&[16u32, 21, 32]) } else { *r.pick(if thorough { &[8u32, 16, 21, 32, 50, 64][..] } else { &[8u32, 16, 21, 32][..] }) };
+        let fm = if thick { 1 } else { [1, 1, 0, 3, 1, 2][(it / 2) % 6] };
+        let maxh = if thick { *r.pick(&[4u32, 6, 8, 16]) } else { *r.pick(&[1u32, 2, 3, 4, 5, 6, 8, 16]) };
+        let conc = if thick { *r.pick(&[0.0005, 0.005]) } else { *r.pick(&[0.0005, 0.005, 0.05, 0.2]) };
         let pds = *r.pick(&[1u32, 2, 4]); let hds = *r.pick(&[1u32, 2, 4]);
         let args = format!("{} {} {} {} {} {} {} {} {} {}", maxh, res, fm, hx(conc), pds, hds, n, poly.iter().map(d2::hp).collect::<Vec<_>>().join(" "), n,
             (0..n).map(|i| format!("{} {}", i, (i + 1) % n)).collect::<Vec<_>>().join(" "));
         v.push(("acd2".into(), args.clone()));
-        if it % 2 == 0 { v.push(("hulls2".into(), args)); }
+        if it % 2 == 0 || thick { v.push(("hulls2".into(), args)); }
     }
     v
 }
@@ -902,6 +905,23 @@ fn gen_soup3(r: &mut Rng, lat: bool) -> (Vec<P3>, Vec<[u32; 3]>) {
         }
     }
     (p, t)
+}
+
+/// thick closed polygons whose decomposition needs cuts that cross inside the shape: stars with a thick core and crosses
+/// ("+") turned by an oblique angle; the largest extent is one of the extreme sizes of the domain D (0.02 .. 100 world units),
+/// so that the voxel size is far from 1 in both directions; position anywhere within 1e3
+fn gen_thick_poly2(r: &mut Rng, lat: bool) -> Vec<d2::Point<f64>> {
+    let raw: Vec<(f64, f64)> = if r.bool() {
+        let n = 4 + r.below(5) as usize; let inner = r.uniform(0.4, 0.6);
+        (0..2 * n).map(|k| { let a = std::f64::consts::PI * k as f64 / n as f64; let rad = if k % 2 == 0 { 1.0 } else { inner }; (rad * a.cos(), rad * a.sin()) }).collect()
+    } else {
+        let w = r.uniform(0.2, 0.45);
+        vec![(w, w), (1.0, w), (1.0, -w), (w, -w), (w, -1.0), (-w, -1.0), (-w, -w), (-1.0, -w), (-1.0, w), (-w, w), (-w, 1.0), (w, 1.0)].into_iter().rev().collect()
+    };
+    let (c, s) = if lat { *r.pick(&[(0.6, 0.8), (0.8, 0.6), (0.28, 0.96), (1.0, 0.0)]) } else { let a = r.uniform(0.0, 6.28); (a.cos(), a.sin()) };
+    let half = 0.5 * *r.pick(&[0.02, 0.05, 1.0, 40.0, 70.0, 100.0]);
+    let (tx, ty) = if lat { (r.range(-500, 500) as f64, r.range(-500, 500) as f64) } else { (r.uniform(-900.0, 900.0), r.uniform(-900.0, 900.0)) };
+    raw.iter().map(|(x, y)| d2::Point::new((c * x - s * y) * half + tx, (s * x + c * y) * half + ty)).collect()
 }
 
 /// many triangles through one voxel: a fan of 5..16 triangles around a common apex (each voxel near the apex is met by
